@@ -96,12 +96,27 @@ def main(tier, seed):
             for (i, name, d) in items[s::ns]:
                 f.write(c04.item_line(i, d) + "\n")
         shards.append(pth)
+    # second pass: the same items grouped by algorithm family and submitted in batches of 40, so that the
+    # lanes of each manager are filled and recycled; variants have different lane counts, results must not differ
+    grouped = sorted(items, key=lambda it: (it[1], it[0]))
+    gshards = []
+    chunk = (len(grouped) + ns - 1) // ns
+    for s_ in range(ns):
+        pth = os.path.join(workdir, "gshard%d.txt" % s_)
+        with open(pth, "w") as f:
+            for (i, name, d) in grouped[s_ * chunk:(s_ + 1) * chunk]:
+                f.write(c04.item_line(i, d) + "\n")
+        gshards.append(pth)
     t0 = time.time()
     results = {}
     hangs = 0
     with cf.ThreadPoolExecutor(max_workers=ns) as ex:
         for r, to in ex.map(lambda pth: c04.run_k1(k1, pth, "all", "all", 1), shards):
             results.update(r)
+            hangs += 1 if to else 0
+        for r, to in ex.map(lambda pth: c04.run_k1(k1, pth, "all", "0,2,4", 40), gshards):
+            # distinguish the batched pass by an entry-point offset
+            results.update({(i, var, ep + 100): v for (i, var, ep), v in r.items()})
             hangs += 1 if to else 0
     name_of = {i: n for (i, n, d) in items}
     item_of = {i: d for (i, n, d) in items}
